@@ -545,6 +545,26 @@ def gen() -> None:
     text += f"Definition end_headers_bytes : list N := {px.coq_string_codes(eh)}.\n"
     text += "Definition default_headers : list str := [" + "; ".join(px.coq_string_codes(x) for x in defaults) + "].\n"
     px.write_if_changed(os.path.join(COQ, "C19", "Gen.v"), text)
+    _check_pins()
+
+
+def _check_pins() -> None:
+    """statement pins, checked after Gen.v was written: the whole DechunkedInput class, the whole request handler glue the
+    model and the socket-pair oracle stand for (dispatch of every do_* to run_wsgi, handle, run_wsgi with its three nested
+    functions, the drain loop and the 500 fallback, make_environ, server_version / address_string / port_integer), and
+    _wsgi_encoding_dance"""
+    mod = px.load("serving.py")
+    h = px.find_class(mod, "WSGIRequestHandler")
+    parts = ["## serving.DechunkedInput\n" + px.skeleton(px.find_class(mod, "DechunkedInput")),
+             "## serving._chunk_size_re\n" + ast.unparse(px.find_assign(mod, "_chunk_size_re"))]
+    for name in ("server_version", "make_environ", "run_wsgi", "handle", "connection_dropped", "__getattr__", "address_string",
+                 "port_integer"):
+        parts.append(f"## serving.WSGIRequestHandler.{name}\n" + px.skeleton(find_method(h, name)))
+    own = [n.name for n in h.body if isinstance(n, ast.FunctionDef)]
+    parts.append("## serving.WSGIRequestHandler defines\n" + " ".join(own))
+    parts.append("## _internal._wsgi_encoding_dance\n" + px.skeleton(px.find_def(px.load("_internal.py"), "_wsgi_encoding_dance")))
+    px.check_pin("C19", "c19_serving.txt", "\n".join(parts) + "\n",
+                 "serving.DechunkedInput / WSGIRequestHandler (make_environ, run_wsgi, dispatch, handle)")
 
 
 # ====================================================================== harness: reference decoder (the property, transcribed)
@@ -1044,6 +1064,9 @@ def run(chk: Check) -> None:
         except ImplTimeout:
             r, got, err = "!TIMEOUT", b"", "TIMEOUT"
             fails.append(("hang", "DechunkedInput did not return within 5 s"))
+        except Exception as e:  # noqa: BLE001  (e.g. a changed constructor signature)
+            r, got, err = "!HARNESS", b"", type(e).__name__
+            fails.append(("interface-changed", f"DechunkedInput could not be driven: {type(e).__name__}: {e}"))
         case = {"kind": "dc", "wire": wire.hex(), "ops": ops}
         for key, what in fails[:2]:
             chk.fail(key, what, case)
@@ -1099,6 +1122,9 @@ def run(chk: Check) -> None:
         except ImplTimeout:
             r, got, err = "!TIMEOUT", b"", "TIMEOUT"
             fails.append(("hang", "LimitedStream over DechunkedInput did not return within 5 s"))
+        except Exception as e:  # noqa: BLE001
+            r, got, err = "!HARNESS", b"", type(e).__name__
+            fails.append(("interface-changed", f"LimitedStream(DechunkedInput) could not be driven: {type(e).__name__}: {e}"))
         case = {"kind": "ldc", "wire": wire.hex(), "max": mx, "ops": ops}
         for key, what in fails[:2]:
             chk.fail(key, what, case)
@@ -1437,6 +1463,12 @@ def main(chk: Check) -> None:
     chk.trusted += [
         "translator tools/c19.py (T2 of the chunked-framing condition; statement skeletons of DechunkedInput.read_chunk_len / readinto, "
         "run_wsgi.write / execute / prologue and make_environ with comparisons and constants generated at the holes)",
+        "statement pins: tools/pins/c19_serving.txt (whole serving.DechunkedInput, _chunk_size_re, WSGIRequestHandler.server_version / make_environ / "
+        "run_wsgi incl. write, start_response, execute with its drain loop and the 500 fallback / handle / connection_dropped / __getattr__ / "
+        "address_string / port_integer, the list of methods the handler defines, _internal._wsgi_encoding_dance); validated differentially only, "
+        "no pin wanted: log_request / log / log_error / log_message (output only), BaseWSGIServer and make_server (the harness drives the handler "
+        "with a stand-in server object), http.server / email / urllib.parse / io (CPython, not werkzeug code; http.server's response formats are "
+        "read from its source on every run)",
         "extraction ExtrOcamlBasic + tools/conv.ml + coq/C19/driver.ml, OCaml 4.13.1",
         "http.server.BaseHTTPRequestHandler request-line / header parsing and send_response / send_header / end_headers byte layout, "
         "email.message header storage, the socket layer and the selectors drain loop: runtime, exercised in process over socket.socketpair()",
